@@ -493,6 +493,8 @@ def run(chk, prog, tier):
     count_rule(chk, prog)
     api_rule(chk, prog)
     integration_length(chk, prog)
+    from props.c05 import madgwick_guard
+    madgwick_guard(chk, prog)       # finiteness at the exact truth: the gradient is normalised only where the objective is non-zero
     chk.require_count("COUNT.loop", 14)
     chk.require_count("COUNT.comp", 6)
     canaries(chk, prog)
